@@ -3,7 +3,7 @@
 Lean: Props/C08.lean (C08 : C08_statement; rem_nonneg, complete_trip_home_fits, step_decision,
 day_rem_nonneg, day_budget, budget_daylight, day_budget_workday, day_visits, crews_used,
 weather_visited, checkWeather_iff, weather_unworkable, one_report_per_request,
-step_budget_fractional, budget_daylight_fractional).
+step_budget_fractional, budget_daylight_fractional, out_reqOk, day_unit_free).
 Tie: the REAL Method.survey_site on every integer tuple R<=24, S<=8, T<=4, P<=S x deployment type x
 weather outcome (exhaustive, base class and component-level subclass), multi-day continuation of one
 survey on the report object carried by the real SurveyPlanner, the REAL Method.deploy_crews /
@@ -22,9 +22,9 @@ from harness import core
 from harness.props import _crew_common as CC
 
 MANIFEST_ENTRY = {
-    "text": "Lean theorem C08 proves, for every method description, day budget, crew count and work plan (any number of requests with any survey/travel times, partial progress and per-site weather), by induction over the loop of deploy_crews: every crew's remaining minutes stay >= 0; the minutes charged to a crew over its visits (travel + survey) plus its trip home never exceed the budget (day_budget), which is 60*min(workday, daylight) when daylight is considered (budget_daylight, day_budget_workday; fractional-hour version over any ordered field: step_budget_fractional, budget_daylight_fractional); a completed or partial survey leaves the trip home (complete_trip_home_fits); no more crews are used than the method has (crews_used); a site is visited only if temperature, wind and precipitation are all inside the envelope (weather_visited, checkWeather_iff) and an unworkable site's report is unchanged and re-queued (weather_unworkable); every planned request gets exactly one report (one_report_per_request). The model is tied on every run to the real Method.survey_site (exhaustive on R<=24,S<=8,T<=4,P<=S x deployment type x weather outcome), to multi-day continuations, to the real Method/ComponentLevelMethod.deploy_crews for all four method classes, to the real daylight and weather lookup code, and the property's clauses are evaluated directly on the implementation outputs; whole simulations add the same clauses on wrapper traces.",
+    "text": "Lean theorem C08 proves, for every method description, day budget, crew count and work plan (any number of requests with any survey/travel times, partial progress and per-site weather), by induction over the loop of deploy_crews: every crew's remaining minutes stay >= 0; the minutes charged to a crew over its visits (travel + survey) plus its trip home never exceed the budget (day_budget), which is 60*min(workday, daylight) when daylight is considered (budget_daylight, day_budget_workday; fractional-hour version over any ordered field: step_budget_fractional, budget_daylight_fractional); a completed or partial survey leaves the trip home (complete_trip_home_fits); no more crews are used than the method has (crews_used); a site is visited only if temperature, wind and precipitation are all inside the envelope (weather_visited, checkWeather_iff) and an unworkable site's report is unchanged and re-queued (weather_unworkable); every planned request gets exactly one report (one_report_per_request); the reports handed back unfinished are again admissible requests, so the day theorems iterate over all days (out_reqOk); the daylight cap is part of C08_statement; the loop is homogeneous in the unit of time (day_unit_free), so instances with fractional minutes are integer instances in a finer unit. The model is tied on every run to the real Method.survey_site (exhaustive on R<=24,S<=8,T<=4,P<=S x deployment type x weather outcome), to multi-day continuations, to the real Method/ComponentLevelMethod.deploy_crews for all four method classes, to the real daylight and weather lookup code, and the property's clauses are evaluated directly on the implementation outputs; whole simulations add the same clauses on wrapper traces.",
     "design_ref": "DESIGN.md 5.8, 4.2",
-    "note": "trusted: Lean kernel + propext/Classical.choice/Quot.sound; the hand-written model (tied by exhaustive/sampled correspondence, not proof); harness adapters and stubs (StubSite, synthetic weather cube, stub ephem); minutes are integers in the theorems of the day loop (fractional daylight: step-level theorems over ordered fields + oracle on the quarter-hour grid); sampled travel times are inputs; the interplay with the queue over several days (request really served again) belongs to C07",
+    "note": "trusted: Lean kernel + propext/Classical.choice/Quot.sound; the hand-written model (tied by exhaustive/sampled correspondence, not proof); harness adapters and stubs (StubSite, synthetic weather cube, stub ephem); minutes are integers in the theorems of the day loop; fractional minutes are covered by homogeneity (day_unit_free) + step-level theorems over ordered fields, and tied by the fractional-daylight stage with exact Fractions (float rounding of non-dyadic daylight hours is outside); sampled travel times are inputs; the interplay with the queue over several days (request really served again) belongs to C07",
     "technique": "Lean 4 invariant proof over the deploy_crews loop + exhaustive/differential correspondence with the real classes + direct oracle",
 }
 
@@ -428,7 +428,9 @@ def run(ctx):
                 "holds; campaigns: 3..12 consecutive real deploy_crews days on the same planners (reports carried over by "
                 "the real code, plan order from the real schedule update), each day also run through the model; crew days: "
                 "random work plans in three sizes x 4 method classes x cost types, crews 0..5, partial reports, exact-fit "
-                "surveys, weather triples inside / on / outside each envelope bound; budget: workday x daylight in 0..24 "
+                "surveys, weather triples inside / on / outside each envelope bound; fractional: daylight-sensitive days with "
+                "daylight hours p/100, p/7, p/13 as exact Fractions and non-empty plans, the model fed in units of 1/q "
+                "minute; budget: workday x daylight in 0..24 "
                 "and quarter-hour daylight through the real daylight calculator; weather: real lookup cubes with unsorted "
                 "axes, random site locations and days. non-trivial = distinct (stage, class, branch/outcome shape) keys")
     core.lean_stage(ctx, MODULE, FILE, drivers=["drv_crew"])
